@@ -146,6 +146,8 @@ LEMMAS = {
     'C11': ['C03', 'C04', 'PRIM'],
     'C12': ['PRIM'],
     'C13': ['C03'],
+    'C14': ['C02'],
+    'C15': ['C02'],
     'C17': ['C03', 'C04', 'PRIM'],
     'C18': ['C03', 'C04', 'C17', 'PRIM'],
     'C19': ['C11', 'PRIM'],
